@@ -206,6 +206,7 @@ func cmdCheck(args []string) int {
 	sort.Strings(keys)
 	var mu sync.Mutex
 	var wg sync.WaitGroup
+	checked := map[*FuncContract]bool{}
 	sem := make(chan struct{}, 8)
 	for _, k := range keys {
 		c := P.CS.Funcs[k]
@@ -273,6 +274,7 @@ func cmdCheck(args []string) int {
 					continue
 				}
 			}
+			checked[bc] = true
 			wg.Add(1)
 			go func(c *FuncContract) {
 				defer wg.Done()
@@ -286,6 +288,47 @@ func cmdCheck(args []string) int {
 		}
 	}
 	wg.Wait()
+	// closure over contract uses: a proved function whose contract was used at a call site of a function checked for
+	// this property carries part of the property's argument, whatever properties its own block lists; it is checked in
+	// this run too (its obligations are counted under this property), and so on transitively
+	closureAdded := 0
+	for round := 0; round < 8 && *only == ""; round++ {
+		var todo []*FuncContract
+		for _, k := range keys {
+			c := P.CS.Funcs[k]
+			for _, bc := range append([]*FuncContract{c}, c.Behaviors...) {
+				if bc.Used && !bc.Trusted && !checked[bc] && !(bc.Pure && len(bc.Ensures) == 0) {
+					todo = append(todo, bc)
+				}
+			}
+		}
+		if len(todo) == 0 {
+			break
+		}
+		for _, bc := range todo {
+			checked[bc] = true
+			fn := P.FindFunc(bc.PkgPath, bc.Key)
+			if fn == nil {
+				continue
+			}
+			closureAdded++
+			wg.Add(1)
+			go func(c *FuncContract, fn *ssa.Function) {
+				defer wg.Done()
+				sem <- struct{}{}
+				defer func() { <-sem }()
+				rep := CheckFunc(P, fn, c)
+				for _, o := range rep.Obligations {
+					o.Props = []string{*prop}
+				}
+				mu.Lock()
+				reports = append(reports, rep)
+				mu.Unlock()
+			}(bc, fn)
+		}
+		wg.Wait()
+	}
+	_ = closureAdded
 	// a trusted data-access function whose assumed contract was used by any function checked above has its SQL
 	// pinned in this run too, whatever properties its own block lists
 	for _, k := range keys {
